@@ -158,6 +158,14 @@ fn engine_point(site: wirefilter::verif::Site) {
         SetHookAfterSet => "set_hook.after_set",
         CatchAfterStart => "catch.after_start",
         CatchAfterUnwind => "catch.after_unwind",
+        SetHookBeforeLock => "set_hook.before_lock",
+        SetHookLockWait => {
+            if kernel::current_task().is_some() {
+                kernel::count("c19.install_lock_contended");
+            }
+            kernel::point_blocked("set_hook.lock_wait");
+            return;
+        }
     };
     crate::props::c19::on_engine_site(s);
     point(s);
